@@ -136,9 +136,9 @@ _SUMM = {}
 
 def setter_summary(tr, b):
     """field -> source kinds, for a method `fn(self, ..) -> SameAdt`; None if b is not of that shape"""
-    if b.def_ in _SUMM:
-        return _SUMM[b.def_]
-    _SUMM[b.def_] = None
+    if "setter_summary" in b._cache:
+        return b._cache["setter_summary"]
+    b._cache["setter_summary"] = None
     st = _self_adt(b)
     if st is None:
         return None
@@ -179,7 +179,7 @@ def setter_summary(tr, b):
                 else:
                     kinds.add("unknown")
         summ[f] = kinds
-    _SUMM[b.def_] = summ
+    b._cache["setter_summary"] = summ
     return summ
 
 
